@@ -147,3 +147,40 @@ type tickerView struct{ t *Timer }
 
 func (v tickerView) C() <-chan time.Time { return v.t.ch }
 func (v tickerView) Stop()               { v.t.Stop() }
+
+// ---- package time's own timers on the harness clock -----------------------------------------------------------------
+// Code that uses time.After / time.NewTimer / time.Sleep directly (instead of an injected clock) is put on the harness
+// clock by stub directives pointing here; StdClock is the clock in force (set by the harness).
+
+var StdClock *Clock
+
+var stdTimers []stdTimer
+
+type stdTimer struct {
+	std *time.Timer
+	t   *Timer
+}
+
+func StdAfter(d time.Duration) <-chan time.Time { return StdClock.After(d) }
+func StdSleep(d time.Duration)                  { StdClock.Sleep(d) }
+func StdNow() time.Time                         { return StdClock.Now() }
+
+func StdNewTimer(d time.Duration) *time.Timer {
+	t := StdClock.NewTimer(d).(*Timer)
+	std := &time.Timer{C: t.ch}
+	stdTimers = append(stdTimers, stdTimer{std, t})
+	return std
+}
+
+func stdLookup(std *time.Timer) *Timer {
+	for _, e := range stdTimers {
+		if e.std == std {
+			return e.t
+		}
+	}
+	panic("time.Timer not created through the harness clock")
+}
+
+func StdTimerStop(std *time.Timer) bool { return stdLookup(std).Stop() }
+
+func StdTimerReset(std *time.Timer, d time.Duration) bool { return stdLookup(std).Reset(d) }
